@@ -425,8 +425,11 @@ def run_case(run, tap, stream, index, rng):
             kwargs["pixel_register"] = bool(rng.random() < 0.5)
             if rng.random() < 0.3:
                 kwargs["meshgrid"] = False
-            elif rng.random() < 0.4:
-                kwargs["extra_coords"] = [float(v) for v in rng.normal(size=int(rng.integers(1, 3)))] if rng.random() < 0.7 else float(rng.normal())
+            elif rng.random() < 0.5:
+                # the same value spelled in every accepted way: bare scalar (incl. exactly zero), numpy scalar, list, tuple, ndarray
+                spell = int(rng.integers(0, 7))
+                kwargs["extra_coords"] = [0, 0.0, np.float64(0.0), float(rng.normal()), [0.0], (float(rng.normal()), 0.0), np.array([1.5, 0.0, -2.0])][spell]
+                run.count("class:extra_coords_spelling_%d" % spell)
             res = vc.grid_coordinates(region, **kwargs)
         run.sample("grid", {"region": region, "kwargs": kwargs, "shapes": [np.shape(r) for r in res]})
     elif stream == "nested":
